@@ -276,9 +276,16 @@ Definition kind_ok (T : otable) (k : okind) : bool :=
 (* what the theorems need of the regenerated table: the removal statement is
    [Entries[i+1:]] followed by [i--]; what the removal loop books against the credit
    total is counted as credit by calculateBatchAmounts; no code is in both lists;
-   the offsets get a debit code resp. a credit code that the loop recognises *)
+   the offsets get a debit code resp. a credit code that the loop recognises; the two
+   lists of calculateBatchAmounts are the NACHA credit and debit codes *)
+(* the NACHA transaction codes: second digit 1..4 credit, 5..9 debit (loan accounts: 55, 56 only) *)
+Definition nacha_credit : list Z := [21; 22; 23; 24; 31; 32; 33; 34; 41; 42; 43; 44; 51; 52; 53; 54].
+Definition nacha_debit : list Z := [26; 27; 28; 29; 36; 37; 38; 39; 46; 47; 48; 49; 55; 56].
+Definition same_set (a b : list Z) : bool := subset a b && subset b a.
+
 Definition table_ok (T : otable) : bool :=
   negb (t_unknown T)
+  && same_set (t_credit T) nacha_credit && same_set (t_debit T) nacha_debit
   && match t_tail T with TailSucc => true | _ => false end
   && t_redo T
   && subset (t_rm_credit T) (t_credit T)
